@@ -245,7 +245,10 @@ class Composition(Loggable):
         self._time_frame = (self._time_frame[0], end_time)
 
         self.logger.info("run composition")
-        while len(time_components) > 0:
+        while any(
+            comp.status != ComponentStatus.FINISHED and comp.time < end_time
+            for comp in time_components
+        ):
             sort_components = [
                 m for m in time_components if m.status != ComponentStatus.FINISHED
             ]
@@ -260,15 +263,6 @@ class Composition(Loggable):
                     ComponentStatus.FINISHED,
                 ],
             )
-
-            any_running = False
-            for comp in time_components:
-                if comp.status != ComponentStatus.FINISHED and comp.time < end_time:
-                    any_running = True
-                    break
-
-            if not any_running:
-                break
 
         self._finalize_components()
         self._finalize_composition()
